@@ -837,7 +837,14 @@ def r02_8(ctx: Ctx, growth_is_harmless: bool = False):
                                 kept.append(e2)
                         escapes = kept
                     for e2 in escapes:
-                        obs.append(ctx.ob("R02.8", f, e2.stmt, status=VIOLATION, detail=f"{f.short}: `{e2.label[:60]}` keeps a second reference (an attribute) to a list that is recorded in the history: later appends through that attribute change the recorded generation"))
+                        # the second reference matters when something is written through it: a mutating call or an item store
+                        # on that attribute anywhere in the class (for need `growth_is_harmless` only the destructive ones, above)
+                        attrs2 = [t.attr for t in (e2.ast.targets if isinstance(e2.ast, ast.Assign) else [e2.ast.target]) if isinstance(t, ast.Attribute)]
+                        writes2 = [c for g in ctx.prog.functions_in(ci) for c in body_walk(g.node) if (isinstance(c, ast.Call) and isinstance(c.func, ast.Attribute) and c.func.attr in LIST_MUT and isinstance(c.func.value, ast.Attribute) and c.func.value.attr in attrs2) or (isinstance(c, (ast.Assign, ast.AugAssign)) and any(isinstance(t, ast.Subscript) and isinstance(t.value, ast.Attribute) and t.value.attr in attrs2 for t in (c.targets if isinstance(c, ast.Assign) else [c.target])))]
+                        if writes2:
+                            obs.append(ctx.ob("R02.8", f, e2.stmt, status=VIOLATION, detail=f"{f.short}: `{e2.label[:60]}` keeps a second reference (an attribute) to a list that is recorded in the history, and `{norm(writes2[0])[:60]}` writes through it: the recorded generation changes after it was recorded"))
+                        else:
+                            obs.append(ctx.ob("R02.8", f, e2.stmt, detail=f"{f.short}: `{e2.label[:60]}` keeps a second reference to a recorded list; nothing is written through it"))
                     later = [n2 for n2 in cfg.nodes if n2 is not node and mutates(n2) and cfg.can_reach(node, n2)]
                     if later:
                         obs.append(ctx.ob("R02.8", f, later[0].stmt, status=VIOLATION, detail=f"{f.short}: `{later[0].label[:60]}` mutates a list after it was recorded in the history (the recorded metaepoch changes afterwards)"))
